@@ -1,47 +1,39 @@
-(* C02 header table: the model's header cascade against the RFC rules, for every context and all 65536 values of the
-   first two octets (exhaustive vm_compute sweep in four shards, lifted), plus structural lemmas on the cascade. *)
+(* C02 header table: the model's header cascade against the RFC rules, for every configuration and all 65536 values
+   of the first two octets. *)
 From Coq Require Import NArith List Bool Lia.
 From AV Require Import Model.Masker Gen.WsConsts Model.WsRecv.
 From AV Require Export Proofs.WsRecvHeaderBase.
-From AV Require Import Proofs.WsRecvHeaderS0 Proofs.WsRecvHeaderS1 Proofs.WsRecvHeaderS2 Proofs.WsRecvHeaderS3.
 Import ListNotations.
 Open Scope N_scope.
-
-Lemma header_sweep :
-  forallb (fun sv => forallb (fun mo => forallb (fun pm => forallb (fun ins =>
-    sweep_ctx sv mo pm ins) bools) bools) bools) bools = true.
-Proof.
-  apply forallb_forall; intros sv _. apply forallb_forall; intros mo _.
-  destruct sv, mo; [exact header_sweep_0|exact header_sweep_1|exact header_sweep_2|exact header_sweep_3].
-Qed.
 
 Lemma nonemptyv_nil l : nonemptyv l = false <-> l = [].
 Proof. destruct l; cbn; split; intros; try reflexivity; discriminate. Qed.
 
-Lemma cell_ok_spec sv mo pm ins b0 b1 :
-  cell_ok sv mo pm ins b0 b1 = true ->
-  let cf := ctx_cfg sv mo mo pm in
-  (hdr_viols cf ins b0 b1 = [] <-> rfc_header_verdict cf ins b0 b1 = []) /\
-  (forall v, In v (hdr_viols cf ins b0 b1) -> In v (rfc_header_verdict cf ins b0 b1)).
+Lemma in_bools b : In b bools. Proof. destruct b; cbn; auto. Qed.
+
+Lemma fcell sv mo pm ins fin r1 r2 r3 op masked gt is1 : op < 16 ->
+  fcell_ok sv mo pm ins fin r1 r2 r3 op masked gt is1 = true.
 Proof.
-  unfold cell_ok. intros H. apply andb_true_iff in H. destruct H as [H1 H2]. cbv zeta. split.
+  intros Hop. pose proof field_sweep as S. unfold field_table in S.
+  repeat match type of S with allb ?f = true => let b := fresh "b" in pose proof (allb_spec f S) as S' ; clear S; rename S' into S end.
+  specialize (S sv). cbv beta in S. apply allb_spec with (b := mo) in S. apply allb_spec with (b := pm) in S.
+  apply allb_spec with (b := ins) in S. apply allb_spec with (b := fin) in S. apply allb_spec with (b := r1) in S.
+  apply allb_spec with (b := r2) in S. apply allb_spec with (b := r3) in S. apply allb_spec with (b := masked) in S.
+  apply allb_spec with (b := gt) in S. apply allb_spec with (b := is1) in S.
+  rewrite forallb_forall in S. apply S. apply (proj2 (rangeN_in 16 op)). exact Hop.
+Qed.
+
+Lemma fcell_spec sv mo pm ins fin r1 r2 r3 op masked gt is1 :
+  fcell_ok sv mo pm ins fin r1 r2 r3 op masked gt is1 = true ->
+  let cf := ctx_cfg sv mo mo pm in
+  let vs := hdr_body cf ins fin (bits_rsv r1 r2 r3) op masked gt is1 in
+  let rv := rfc_body cf ins fin r1 r2 r3 op masked gt is1 in
+  (vs = [] <-> rv = []) /\ (forall v, In v vs -> In v rv).
+Proof.
+  unfold fcell_ok. intros H. apply andb_true_iff in H. destruct H as [H1 H2]. cbv zeta. split.
   - apply Bool.eqb_prop in H1. rewrite <- !nonemptyv_nil, H1. reflexivity.
   - intros v Hv. rewrite forallb_forall in H2. specialize (H2 v Hv).
     apply existsb_exists in H2. destruct H2 as [w [Hw He]]. apply hviol_eqb_eq in He. now subst.
-Qed.
-
-Lemma in_bools b : In b bools. Proof. destruct b; cbn; auto. Qed.
-
-Lemma header_table_ctx sv mo pm ins b0 b1 : b0 < 256 -> b1 < 256 -> cell_ok sv mo pm ins b0 b1 = true.
-Proof.
-  intros H0 H1. pose proof header_sweep as S.
-  rewrite forallb_forall in S. specialize (S sv (in_bools sv)).
-  rewrite forallb_forall in S. specialize (S mo (in_bools mo)).
-  rewrite forallb_forall in S. specialize (S pm (in_bools pm)).
-  rewrite forallb_forall in S. specialize (S ins (in_bools ins)).
-  unfold sweep_ctx in S. rewrite forallb_forall in S.
-  specialize (S b0 (proj2 (rangeN_in 256 b0) H0)).
-  rewrite forallb_forall in S. exact (S b1 (proj2 (rangeN_in 256 b1) H1)).
 Qed.
 
 (* the table for every configuration *)
@@ -50,8 +42,20 @@ Theorem header_table cf ins b0 b1 : b0 < 256 -> b1 < 256 ->
   (forall v, In v (hdr_viols cf ins b0 b1) -> In v (rfc_header_verdict cf ins b0 b1)).
 Proof.
   intros H0 H1.
+  pose proof b0_sweep as S0. rewrite forallb_forall in S0. specialize (S0 b0 (proj2 (rangeN_in 256 b0) H0)).
+  pose proof b1_sweep as S1. rewrite forallb_forall in S1. specialize (S1 b1 (proj2 (rangeN_in 256 b1) H1)).
+  unfold b0_ok in S0. unfold b1_ok in S1.
+  repeat (apply andb_true_iff in S0; destruct S0 as [S0 ?]). repeat (apply andb_true_iff in S1; destruct S1 as [S1 ?]).
+  repeat match goal with X : Bool.eqb _ _ = true |- _ => apply Bool.eqb_prop in X end.
+  repeat match goal with X : (_ =? _) = true |- _ => apply N.eqb_eq in X end.
+  match goal with X : (_ <? _) = true |- _ => apply N.ltb_lt in X; rename X into Hop end.
+  rewrite hdr_viols_body, rfc_verdict_body.
+  repeat match goal with X : hb_fin _ = _ |- _ => rewrite X; clear X | X : hb_rsv _ = _ |- _ => rewrite X; clear X
+                       | X : hb_opcode _ = _ |- _ => rewrite X; clear X | X : hb_masked _ = _ |- _ => rewrite X; clear X
+                       | X : hb_len1 _ = _ |- _ => rewrite X; clear X end.
+  change (pd_ctl_len_bad (b1 mod 128)) with (125 <? b1 mod 128). change (pd_len1_is1 (b1 mod 128)) with (b1 mod 128 =? 1).
   destruct cf as [sv rm am ap fb uv mf mm pm ec].
   destruct sv.
-  - pose proof (cell_ok_spec true rm pm ins b0 b1 (header_table_ctx true rm pm ins b0 b1 H0 H1)) as H. exact H.
-  - pose proof (cell_ok_spec false am pm ins b0 b1 (header_table_ctx false am pm ins b0 b1 H0 H1)) as H. exact H.
+  - exact (fcell_spec true rm pm ins _ _ _ _ _ _ _ _ (fcell true rm pm ins _ _ _ _ _ _ _ _ Hop)).
+  - exact (fcell_spec false am pm ins _ _ _ _ _ _ _ _ (fcell false am pm ins _ _ _ _ _ _ _ _ Hop)).
 Qed.
